@@ -17,7 +17,7 @@ open Scrut Scrut.TestRun Scrut.Markdown Scrut.Update Scrut.LineParser Scrut.GenL
 def LinesParse (expOk : Markdown.Line → Bool) (ls : List Markdown.Line) : Prop :=
   ∃ (c0 : Markdown.Line) (more after : List Markdown.Line),
     ls = ('$' :: ' ' :: c0) :: (more.map contLine ++ after) ∧ NotCont after ∧
-    (∀ e ∈ expLines after, expOk e = true) ∧ (exitCodes after).length ≤ 1
+    (∀ e ∈ expLines after, expOk e = true ∧ isExitCodeForm e = false) ∧ (exitCodes after).length ≤ 1
 
 theorem addAll_code_ok (expOk : Markdown.Line → Bool) (s : LineParser.State Cfg) (hc : Markdown.Clean s) (k : Nat)
     {ls : List Markdown.Line} (h : LinesParse expOk ls) :
@@ -296,13 +296,16 @@ theorem gens_parse {isOther : Char → Bool} (hC : AsciiContract isOther) {conte
       refine hq tests ht j u d hu ?_
       rw [hres, List.getElem?_map, hoj, Option.map_some, hd]
     obtain ⟨newExps, hne, _⟩ := hpass hcomp hquant
+    have hnoexit' : ∀ o ∈ newOrigs, extractExitCode o = none :=
+      fun o h => extractExitCode_of_not_form (hnoexit o h)
     refine ⟨c0, more, afterLines newOrigs r.code, by rw [hsplit]; simp, afterLines_notCont newOrigs r.code, ?_, ?_⟩
-    · rw [expLines_afterLines newOrigs hnoexit r.code hcode0 hcode1]
+    · rw [expLines_afterLines newOrigs hnoexit' r.code hcode0 hcode1]
       intro e he
+      refine ⟨?_, hnoexit e he⟩
       obtain ⟨i, hi, rfl⟩ := List.getElem_of_mem he
       obtain ⟨x, _, hx⟩ := hne.get i _ (List.getElem?_eq_getElem hi)
       exact expOk_of_compile hx
-    · rw [exitCodes_afterLines newOrigs hnoexit r.code hcode0 hcode1]
+    · rw [exitCodes_afterLines newOrigs hnoexit' r.code hcode0 hcode1]
       split <;> simp
 
 /-- **the written document parses** -/
